@@ -115,6 +115,25 @@ func setCtxs(yylex yyLexer, exprs []ast.Expr, ctx ast.ExprContext) {
 	}
 }
 
+// Make the expression for a dotted name, eg a.b.c: a Name for the first part
+// wrapped in one Attribute for each further part
+func dottedNameExpr(pos ast.Pos, dottedName string) ast.Expr {
+	var expr ast.Expr
+	start := 0
+	for i := 0; i <= len(dottedName); i++ {
+		if i == len(dottedName) || dottedName[i] == '.' {
+			part := ast.Identifier(dottedName[start:i])
+			if expr == nil {
+				expr = &ast.Name{ExprBase: ast.ExprBase{Pos: pos}, Id: part, Ctx: ast.Load}
+			} else {
+				expr = &ast.Attribute{ExprBase: ast.ExprBase{Pos: pos}, Value: expr, Attr: part, Ctx: ast.Load}
+			}
+			start = i + 1
+		}
+	}
+	return expr
+}
+
 %}
 
 %union {
@@ -349,7 +368,7 @@ optional_arglist_call:
 decorator:
 	'@' dotted_name optional_arglist_call NEWLINE
 	{
-		fn := &ast.Name{ExprBase: ast.ExprBase{Pos: $<pos>$}, Id: ast.Identifier($2), Ctx: ast.Load}
+		fn := dottedNameExpr($<pos>$, $2)
 		if $3 == nil {
 			$$ = fn
 		} else {
